@@ -452,10 +452,18 @@ class Harness:
         if AMPLIFICATION_MODE[0]:
             # (checks.c13, variant asyncio_server) half of the spoofed token-less Initials are cut short
             def cut(ch, data):
-                if ch.choose(2):
+                k = ch.choose(3)
+                if k == 0:
                     return data
                 self.probes["spoofed_initial_undersized"] += 1
-                return data[:(60, 80, 98, 150, 400, 1199)[ch.choose(6)]]
+                if k == 1:  # the genuine datagram cut short (its Length field then lies)
+                    return data[:(60, 80, 98, 150, 400, 1199)[ch.choose(6)]]
+                # a well-formed but tiny Initial: same connection IDs and version, a payload of a few bytes
+                from wire import header as wh
+
+                n = (17, 20, 24, 40, 60, 200, 900)[ch.choose(7)]
+                hdr = wh.build_long_header("initial", ini.version, bytes(ini.dcid), bytes(ini.scid), b"", 0, 1, n)
+                return hdr + bytes((i * 29 + 7) & 0xFF for i in range(n))
 
             return max(cfg["p_spoof_initial"], 0.5), None, cut
         return cfg["p_spoof_initial"], None
